@@ -253,6 +253,15 @@ func RunBatches(test string, res *Result, n int, par int, timeout time.Duration,
 				res.Inconc(fmt.Sprintf("batch %d: case watchdog fired; last case: %.300s\n%s", b, curb, tail(out, 1500)))
 				return
 			}
+			if bytes.Contains(out, []byte("VERIF-ENV:")) || bytes.Contains(out, []byte("httptest: failed to listen on a port")) {
+				// the machine, not the code under test: no local port could be had
+				if !last {
+					retry = append(retry, b)
+				} else {
+					res.Inconc(fmt.Sprintf("batch %d: the machine ran out of local ports; last case: %.300s", b, curb))
+				}
+				return
+			}
 			if !last && bytes.Contains(out, []byte("cannot allocate memory")) {
 				// the box ran out of memory/address space with all batches running at
 				// once: run this batch again on its own before judging
